@@ -102,6 +102,7 @@ def run_same_name(ctx, st):
     try:
         out = list(_parser(ctx).traces(make_stream(K.v2_file([], 0, recs)), t))
     except Exception as ex:     # noqa
+        __import__('vxlib.symx.core', fromlist=['x']).proxy_rejected(ex)
         ctx.check('C19/same-name/no-error', False, '%s: %s' % (type(ex).__name__, ex)); ctx.reach(); return
     ctx.check('C19/same-name/both-ids-decoded', len(out) == 2 and all(type(x).__name__ == 'BscGetpid' for x in out),
               '%d traces for two windows whose ids both map to the decodable name' % len(out))
@@ -116,6 +117,8 @@ REPRESENTATIVES = [
     ('0x1 A\n0x1 B\n1 C\n', {1: 'C'}),
     ('ABCDEF12 x\nabcdef12 y\n0xAbCdEf12 z #comment\n', {0xabcdef12: 'z'}),
     ('0x7\tseven\t\t#Params: a b\n0x8 eight', {7: 'seven', 8: 'eight'}),
+    ('0x5 zeta\n0x5 alpha\n', {5: 'alpha'}),
+    ('0x40c000c\tBSC_read\n40C000C BSC_pread\n0x40c0010 BSC_write\n', {0x40c000c: 'BSC_pread', 0x40c0010: 'BSC_write'}),
     ('', {}),
 ]
 
@@ -128,6 +131,7 @@ def run_representatives(ctx, st):
         try:
             got = tc.from_trace_codes_text(text)
         except Exception as e:      # noqa
+            __import__('vxlib.symx.core', fromlist=['x']).proxy_rejected(e)
             ctx.check('C19/text/representative-%d' % i, False, '%r raised %s: %s' % (text, type(e).__name__, e))
             continue
         ctx.check('C19/text/representative-%d' % i, dict(got) == want, '%r -> %r, expected %r' % (text, dict(got), want))
@@ -157,6 +161,7 @@ def run_decode_sequence(ctx, st):
             setattr(p3, c, False)
         lines = list(p3.formatted_kevents(make_stream(K.v2_file([], 0, recs[:1])), t))
     except Exception as ex:     # noqa
+        __import__('vxlib.symx.core', fromlist=['x']).proxy_rejected(ex)
         ctx.check('C19/sequence/no-error', False, '%s: %s' % (type(ex).__name__, ex)); ctx.reach(); return
     ctx.check('C19/sequence/first-table-honoured', len(out1) == 1 and type(out1[0]).__name__ == 'BscGetpid')
     ctx.check('C19/sequence/second-table-honoured', len(out2) == 0, 'an id absent from the second table was decoded (%d traces)' % len(out2))
@@ -203,6 +208,7 @@ def run_text(ctx, st):
         try:
             table = tc.from_trace_codes_text(text)
         except Exception as e:      # noqa
+            __import__('vxlib.symx.core', fromlist=['x']).proxy_rejected(e)
             ctx.check('C19/text/parses', False, '%s: %s' % (type(e).__name__, e)); ctx.reach(); return
     finally:
         if ctx.symbolic:
@@ -311,6 +317,7 @@ def run_decode(ctx, st):
     try:
         out = list(p.traces(make_stream(K.v2_file([], 0, recs)), t))
     except Exception as ex:     # noqa
+        __import__('vxlib.symx.core', fromlist=['x']).proxy_rejected(ex)
         ctx.check('C19/decode/no-error', False, '%s: %s' % (type(ex).__name__, ex)); ctx.reach(); return
     hit = [i for i in range(3) if bool(ks[i] == e)]
     if hit and hit[0] == 0:
